@@ -447,5 +447,32 @@ def run_replay(path):
                 print(f"   sig={v['sig']}")
                 print(f"   {v['detail'][:1500]}")
         return EXIT_VIOLATED
+    # history-shaped cases carry no self-contained input: re-execute the shard that produced the case, from its seed.
+    # (Deterministic as long as the shard's case counts, not its wall budget, bounded the original run.)
+    shard, want_sig = rec.get("shard"), rec.get("sig")
+    if shard is not None and want_sig:
+        tier, seed = rec.get("tier", "quick"), rec.get("seed", 0)
+        specs = mod.shards(tier, seed)
+        if 0 <= shard < len(specs):
+            budget = getattr(mod, "BUDGET", {"quick": 45.0, "thorough": 480.0})[tier] * 3
+            ctx2 = Ctx(prop, tier, seed, shard, specs[shard], budget)
+            try:
+                mod.run(specs[shard], ctx2)
+            except BaseException as e:
+                print(f"replay of {path}: re-executing shard {shard} failed in the harness: {e!r}")
+                return EXIT_INCONCLUSIVE
+            hit = [v for v in ctx2.violations if v["sig"] == want_sig]
+            if hit:
+                known, unknown = classify(prop, {want_sig: 1})
+                if unknown:
+                    print(f"VIOLATION property={prop} replay={path}")
+                    print(f"   sig={want_sig} (reproduced by re-executing shard {shard} of {tier} seed {seed})")
+                    print(f"   {hit[0]['detail'][:1500]}")
+                    return EXIT_VIOLATED
+                for fid, (f, n) in known.items():
+                    print(f"KNOWN-FINDING: property={prop} {f['what']} [{fid}]")
+                return EXIT_HELD
+            print(f"replay of {path}: shard {shard} re-executed ({sum(ctx2.counters.values())} monitor events), signature not reproduced")
+            return EXIT_HELD
     print(f"replay of {path}: no violation reproduced")
     return EXIT_HELD
